@@ -283,9 +283,23 @@ def _pure_case(case):
         f *= case["scale"]
         d0 = cn.digest(f)
         for rd in (False, True):
-            poc.compute_poc(f, method=case["method"], ret_details=rd)
+            ret = poc.compute_poc(f, method=case["method"], ret_details=rd)
             if cn.digest(f) != d0:
                 viol(case["method"], "force array modified by compute_poc")
+            if rd:
+                for key, val in ret[1].items():
+                    for part in (val if isinstance(val, (list, tuple))
+                                 else [val]):
+                        if isinstance(part, np.ndarray) and \
+                                np.shares_memory(part, f):
+                            out.append(V(
+                                PROP, "alias-differs-from-twin",
+                                site="compute_poc",
+                                witness=f"{case['method']}:{key}",
+                                detail=f"returned detail '{key}' shares "
+                                "memory with the caller's force array: an "
+                                "in-place edit of one changes the other",
+                                case=case, kind="pure"))
     elif kind in ("model", "residual"):
         md = nmodel.models_available[case["model"]]
         P = md.get_parameter_defaults()
@@ -296,8 +310,11 @@ def _pure_case(case):
         y = rng.normal(0, 1e-10, 50)
         dp, dx, dy = cn.digest(P), cn.digest(x), cn.digest(y)
         if kind == "model":
-            md.model(P, x)
-            md.module.model_func(x, **P.valuesdict())
+            r1 = md.model(P, x)
+            r2 = md.module.model_func(x, **P.valuesdict())
+            if np.shares_memory(r1, x) or np.shares_memory(r2, x):
+                viol(case["model"] + ":return", "model output shares "
+                     "memory with the abscissa")
         else:
             md.residual(P, x, y, case["weight_cp"])
         if cn.digest(P) != dp:
@@ -327,6 +344,28 @@ def _pure_case(case):
             viol("names", "names list modified")
         if cn.digest(S) != ds:
             viol("samples", "samples modified by rate()")
+    elif kind == "details":
+        idnt = Twin().fresh_idnt()
+        steps = ["compute_tip_position", "correct_force_offset",
+                 "correct_tip_offset"]
+        det = idnt.apply_preprocessing(
+            steps, {"correct_tip_offset": {"method": case["method"]}},
+            ret_details=True)
+        for col in ("force", "tip position"):
+            arr = idnt[col]
+            for step, dd in (det or {}).items():
+                for key, val in (dd or {}).items():
+                    for part in (val if isinstance(val, (list, tuple))
+                                 else [val]):
+                        if isinstance(part, np.ndarray) and \
+                                np.shares_memory(part, arr):
+                            out.append(V(
+                                PROP, "alias-differs-from-twin",
+                                site="apply_preprocessing",
+                                witness=f"{case['method']}:{key}",
+                                detail=f"returned detail '{key}' of step "
+                                f"{step} shares memory with the curve's "
+                                f"'{col}' column", case=case, kind="pure"))
     elif kind == "features":
         tr = synth.truth_params("hertz_para", E=3000.0, contact_point=0.0)
         idnt = synth.make_curve("hertz_para", tr, n_app=700, n_ret=100,
@@ -353,6 +392,8 @@ def pure_cases():
             for sc in (1.0, 1e9):
                 cases.append({"kind": "compute_poc", "method": m, "n": n,
                               "scale": sc})
+    for m in [p.identifier for p in poc.POC_METHODS]:
+        cases.append({"kind": "details", "method": m})
     for mk in sorted(nmodel.models_available):
         if mk == "sneddon_spher":
             continue
